@@ -90,6 +90,7 @@ import (
 	"strings"
 
 	"github.com/a-h/templ"
+	parser "github.com/a-h/templ/parser/v2"
 
 	"c03probes/probes"
 )
@@ -114,6 +115,7 @@ func unhex(h string) string {
 	return string(b)
 }
 
+` + probeCanon + `
 func main() {
 	in := bufio.NewReaderSize(os.Stdin, 1<<20)
 	out := bufio.NewWriterSize(os.Stdout, 1<<20)
@@ -121,7 +123,14 @@ func main() {
 	for {
 		line, err := in.ReadString('\n')
 		line = strings.TrimRight(line, "\n")
-		if strings.HasPrefix(line, "S ") {
+		if strings.HasPrefix(line, "H ") {
+			// parse history: every file of the line is parsed, in order, in this process; one canonical result each
+			fmt.Fprintf(out, "H")
+			for _, h := range strings.Split(line, " ")[1:] {
+				fmt.Fprintf(out, " %%x", canonFile(unhex(h)))
+			}
+			fmt.Fprintf(out, "\n")
+		} else if strings.HasPrefix(line, "S ") {
 			f := strings.Split(line, " ")
 			var buf bytes.Buffer
 			if fn, ok := scripts[f[1]]; !ok || len(f) != 5 {
@@ -349,6 +358,7 @@ func famProbes(c *core.Ctx, t *tally, pl scriptPlan) {
 	if err != nil {
 		t.tie(tieBuild, map[string]string{"probes": "all"}, err.Error())
 		famScripts(c, t, pl, nil, nil)
+		famHistory(c, t, nil)
 		return
 	}
 	defer sc.Close()
@@ -358,7 +368,10 @@ func famProbes(c *core.Ctx, t *tally, pl scriptPlan) {
 			compiledOK[i] = true
 		}
 	}
-	defer famScripts(c, t, pl, sc, compiledOK)
+	defer func() {
+		famScripts(c, t, pl, sc, compiledOK)
+		famHistory(c, t, sc)
+	}()
 	for name, why := range bad {
 		tpl := ""
 		for _, p := range scriptProbes {
